@@ -234,9 +234,32 @@ def gen_redef_session(rng, np_=None):
     sess.emit('* create %d %d 1' % (f, schema.fmt), kind='create')
     sess.s = schema
     emit_schema(sess, rng, schema, ms, natt=rng.choice([0, 1]))
-    sess.emit('* enddef %d' % f, kind='enddef')
+    if rng.chance(1, 2):
+        # free space after the header and between the fixed and the record section: a later header growth
+        # may then move some sections and not others
+        ea0 = [rng.choice([0, 0, 40]), rng.choice([0, 4]), rng.choice([0, 64, 600, 2000]), rng.choice([0, 4, 256])]
+        sess.emit('* _enddef %d %s' % (f, fmt_list(ea0)), kind='enddef')
+    else:
+        sess.emit('* enddef %d' % f, kind='enddef')
     meta_point(sess, ms, first=True)
-    rw_ops(sess, rng, rng.range(3, 8), allow_indep=False)
+    # every variable fully written (three records) so that every byte of old data is known
+    for v in schema.vars:
+        cnt = [3 if (i == 0 and v.isrec) else d for i, d in enumerate(v.shape)]
+        st = [0] * v.nd
+        if sess.np == 1 or v.nd == 0:
+            if sess.np > 1:
+                sess.begin_indep(); sess.one_access('put', 'i', v, st, cnt, [1] * v.nd, who='0', form='vara' if v.nd else 'var1')
+                sess.emit('* end_indep %d' % f); sess.emit('* sync %d' % f)
+            else:
+                sess.one_access('put', 'c', v, st, cnt, [1] * v.nd, form='vara' if v.nd else 'var1')
+        else:
+            from .gen import decompose
+            sess.emit('{')
+            for r, (s1, c1, t1) in enumerate(decompose(rng, v, st, cnt, [1] * v.nd, sess.np)):
+                sess.one_access('put', 'c', v, s1, c1, t1, who=str(r), form='vara')
+            sess.emit('}')
+        sess.note_put_numrecs(v, st, cnt, [1] * v.nd)
+    rw_ops(sess, rng, rng.range(1, 4), allow_indep=False)
     meta_point(sess, ms)
     for k in range(rng.choice([1, 1, 2, 3])):
         aborting = rng.chance(1, 4)
